@@ -97,6 +97,68 @@ theorem probe_uptodate (fixed : ℚ) (g1 g2 : GRec ℚ) :
     obtain ⟨_, c2, c3, c4, c5, c6, c7, c8, _⟩ := total_fields fixed g
     rw [total_pka, total_pka, c2, c3, c4, c5, c6, c7, c8]
 
+/-! ## the probe of a pair with all its gates -/
+theorem sameResults_refl (g : GRec ℚ) : SameResults g g :=
+  ⟨rfl, rfl, rfl, rfl, rfl, List.Perm.refl _, List.Perm.refl _, List.Perm.refl _, rfl⟩
+
+/-- whatever the gates decide, the probe leaves the pair either untouched or swapped twice -/
+theorem probe_state (fixed : ℚ) (p : ProbeP ℚ) (energy : ℚ → GRec ℚ → GRec ℚ → ℚ) (i1 i2 : ℚ) (g1 g2 : GRec ℚ) :
+    (probe fixed p energy i1 i2 g1 g2).1 = (g1, g2) ∨ (probe fixed p energy i1 i2 g1 g2).1 = probePair fixed g1 g2 := by
+  unfold probe probePair
+  simp only
+  repeat' split
+  all_goals first | exact Or.inl rfl | exact Or.inr rfl
+
+/-- **The probe observes without disturbing**: on every path through its gates (interaction too weak, pKa values out of
+    range, free-energy difference too large, swap shift too small, intrinsic pKa values too far apart, or coupled) both
+    groups end with the results they had - pKa, desolvation terms and every determinant with its original partner label. -/
+theorem probe_restores (fixed : ℚ) (p : ProbeP ℚ) (energy : ℚ → GRec ℚ → GRec ℚ → ℚ) (i1 i2 : ℚ) (g1 g2 : GRec ℚ)
+    (h1 : UpToDate fixed g1) (h2 : UpToDate fixed g2) :
+    SameResults (probe fixed p energy i1 i2 g1 g2).1.1 g1 ∧ SameResults (probe fixed p energy i1 i2 g1 g2).1.2 g2 := by
+  rcases probe_state fixed p energy i1 i2 g1 g2 with h | h
+  · rw [h]; exact ⟨sameResults_refl g1, sameResults_refl g2⟩
+  · rw [h]; exact probe_preserves fixed g1 g2 h1 h2
+
+/-- … and stay up to date, so that the probes of all pairs can follow one another -/
+theorem probe_keeps_uptodate (fixed : ℚ) (p : ProbeP ℚ) (energy : ℚ → GRec ℚ → GRec ℚ → ℚ) (i1 i2 : ℚ) (g1 g2 : GRec ℚ)
+    (h1 : UpToDate fixed g1) (h2 : UpToDate fixed g2) :
+    UpToDate fixed (probe fixed p energy i1 i2 g1 g2).1.1 ∧ UpToDate fixed (probe fixed p energy i1 i2 g1 g2).1.2 := by
+  rcases probe_state fixed p energy i1 i2 g1 g2 with h | h
+  · rw [h]; exact ⟨h1, h2⟩
+  · rw [h]; exact probe_uptodate fixed g1 g2
+
+theorem pyAbs_nonneg (x : ℚ) : 0 ≤ pyAbs x := by
+  unfold pyAbs; simp only [Nat.cast_zero, add_zero]; split <;> linarith
+
+theorem quad_factor_range (d m : ℚ) (hm : 0 < m) (h0 : 0 ≤ d) :
+    0 ≤ (if d ≤ m then 1 - sq (d / m) else 0) ∧ (if d ≤ m then 1 - sq (d / m) else 0) ≤ 1 := by
+  unfold sq
+  split
+  · rename_i h
+    have hd : 0 ≤ d / m := div_nonneg h0 hm.le
+    have hd1 : d / m ≤ 1 := by rw [div_le_iff₀ hm]; linarith
+    constructor <;> nlinarith
+  · exact ⟨le_refl _, zero_le_one⟩
+
+/-- the three scaling factors lie in [0, 1] (thresholds positive), hence so does the reported coupling factor, their product -/
+theorem factors_in_unit_interval (p : ProbeP ℚ) (hE : 0 < p.maxEdiff) (hI : 0 < p.maxIntr) (e1 e2 i1 i2 ie : ℚ) :
+    (0 ≤ energyFactor p e1 e2 ∧ energyFactor p e1 e2 ≤ 1) ∧ (0 ≤ pkaFactor p i1 i2 ∧ pkaFactor p i1 i2 ≤ 1) ∧
+    (0 ≤ interFactor p ie ∧ interFactor p ie ≤ 1) := by
+  refine ⟨?_, ?_, ?_⟩
+  · unfold energyFactor; simp only [Nat.cast_zero, Nat.cast_one]
+    exact quad_factor_range _ _ hE (pyAbs_nonneg _)
+  · unfold pkaFactor; simp only [Nat.cast_zero, Nat.cast_one]
+    exact quad_factor_range _ _ hI (pyAbs_nonneg _)
+  · unfold interFactor; simp only [Nat.cast_zero, Nat.cast_one]
+    split
+    · rename_i h
+      have hx : 0 ≤ pyAbs ie - p.minInter := by linarith
+      have hden : 0 < 1 + pyAbs ie - p.minInter := by linarith
+      constructor
+      · exact div_nonneg hx hden.le
+      · rw [div_le_iff₀ hden]; linarith
+    · exact ⟨le_refl _, zero_le_one⟩
+
 /-! ## coupling is symmetric; the star follows the coupled list -/
 def CouplingSymm (s : Coupling) : Prop := ∀ a b, b ∈ s a ↔ a ∈ s b
 
